@@ -38,6 +38,8 @@ PROFILES = {
     "agg3": prof("MC_Focus", "MovesAgg", 3),
     "win2": prof("MC_Focus", "MovesWin", 2),
     "win3": prof("MC_Focus", "MovesWin", 3, srcs=[1, 6]),
+    "imm3": prof("MC_Focus", "MovesImm", 3, srcs=[1, 6]),
+    "imm4": prof("MC_Focus", "MovesImm", 4, srcs=[1]),
     "ty2": prof("MC_Focus", "MovesTy", 2, srcs=[1, 8, 4]),
     "err2": prof("MC_Focus", "MovesErr", 2, srcs=[1, 4]),
     "err3": prof("MC_Focus", "MovesErr", 3, srcs=[1]),
@@ -118,6 +120,13 @@ CHECKS = {
         level="model_checking",
         clauses=GEN_CLAUSES_SPEC | {"errclass", "getname"},
         phases=dict(quick=[dict(profile="reroot3")], thorough=[dict(profile="reroot3"), dict(profile="reroot4")]),
+    ),
+    "C10": dict(
+        level="model_checking",
+        clauses={"immut-fp", "immut-data", "immut-query", "immut-source", "rows", "order", "names", "accept", "group"},
+        phases=dict(quick=[dict(profile="imm3", opts=dict(immut=True)), dict(profile="core2", opts=dict(immut=True))],
+                    thorough=[dict(profile="imm4", opts=dict(immut=True)), dict(profile="agg3", opts=dict(immut=True)),
+                              dict(profile="wins3", opts=dict(immut=True)), dict(profile="join2", opts=dict(immut=True))]),
     ),
     "C11": dict(
         level="model_checking",
@@ -201,6 +210,12 @@ MANIFEST_TEXT = {
              "reproduce data and types.",
         note=TRUST + " On SQL back ends Pandas export is not implemented (NotImplementedError) and is counted as unavailable, not as a violation.",
         technique="TLA+ spec + TLC exhaustive generation, replay on real code against predicted observations; cross-target oracle"),
+    "C10": dict(
+        text="Behaviours are replayed with ONE python object per specification expression (shared across verbs, grouping states, mutate and "
+             "summarize, and across sibling pipelines); before / after every call a structural fingerprint of every pre-existing table AST, its "
+             "metadata and every pooled expression is compared, inputs are re-exported and must equal their first export, build_query twice must "
+             "agree, source frames / SQL tables are checksummed, and all results must still equal the specification (HeapAppendOnly, ObsPure on the model).",
+        note=TRUST, technique="TLA+ spec (append-only heap, pure observations) + TLC generation, replay with object sharing and fingerprint oracle"),
     "C11": dict(
         text="For every table of every TLC-generated behaviour, columns(), iteration, len, `in` and dir are compared with the exported frame "
              "on both back ends; the metadata layer of the specification predicts the same names.",
